@@ -117,7 +117,7 @@ func (h *H) phaseBinary() {
 	if h.drv != nil {
 		outs, err := h.drv.AskAll(lines)
 		if err != nil {
-			res.Note("driver: %v", err)
+			res.Fatalf("driver: %v", err)
 			h.drv = nil
 			return
 		}
